@@ -387,6 +387,17 @@ func typeWriterCall(w *genWalker, tw *ast.FuncDecl, prm types.Object, call *ast.
 		}
 		return true, argOf(tw, prm, call)
 	}
+	// a string-valued forwarder: `func goType(t, tags, n) string { var sb Builder; writeType(&sb, t, tags, n); return sb.String() }`
+	if g, inner := w.stringForwarder(fd); g != nil {
+		is, innerArg := typeWriterCall(w, tw, prm, inner, depth+1)
+		if !is {
+			return false, nil
+		}
+		if id, ok := innerArg.(*ast.Ident); ok {
+			return true, argOf(fd, w.info.Uses[id], call)
+		}
+		return true, innerArg
+	}
 	if fd.Body == nil || len(fd.Body.List) != 1 {
 		return false, nil
 	}
@@ -407,6 +418,65 @@ func typeWriterCall(w *genWalker, tw *ast.FuncDecl, prm types.Object, call *ast.
 		return true, argOf(fd, w.info.Uses[id], call)
 	}
 	return true, innerArg // a constant passed by the forwarder itself
+}
+
+// typeWriterCallContext: st writes an expression one of whose operands is a (string-valued) call of the type writer;
+// returns the constant text directly before and after that operand.
+func typeWriterCallContext(w *genWalker, tw *ast.FuncDecl, st ast.Stmt) (string, string, bool) {
+	e := writeArg(st)
+	if e == nil {
+		return "", "", false
+	}
+	var ops []ast.Expr
+	var flat func(x ast.Expr)
+	flat = func(x ast.Expr) {
+		switch y := x.(type) {
+		case *ast.ParenExpr:
+			flat(y.X)
+		case *ast.BinaryExpr:
+			if y.Op == token.ADD {
+				flat(y.X)
+				flat(y.Y)
+				return
+			}
+			ops = append(ops, x)
+		default:
+			ops = append(ops, x)
+		}
+	}
+	flat(e)
+	konst := func(x ast.Expr) (string, bool) {
+		if tv, ok := w.info.Types[x]; ok && tv.Value != nil && tv.Value.Kind() == constant.String {
+			return constant.StringVal(tv.Value), true
+		}
+		return "", false
+	}
+	for i, op := range ops {
+		c, ok := op.(*ast.CallExpr)
+		if !ok {
+			continue
+		}
+		if is, _ := typeWriterCall(w, tw, nil, c, 0); !is {
+			continue
+		}
+		before, after := "", ""
+		for j := i - 1; j >= 0; j-- {
+			k, ok := konst(ops[j])
+			if !ok {
+				break
+			}
+			before = k + before
+		}
+		for j := i + 1; j < len(ops); j++ {
+			k, ok := konst(ops[j])
+			if !ok {
+				break
+			}
+			after += k
+		}
+		return before, after, true
+	}
+	return "", "", false
 }
 
 // containsTypeWriterCall: the first call of the type writer (direct or through a forwarder) below n.
@@ -620,6 +690,11 @@ func conversionRules(r *Run, p *Prog, w *genWalker) {
 			var before, after string
 			for i, st := range convBody {
 				if containsTypeWriterCall(w, tw, st) == nil {
+					continue
+				}
+				if b4, aft, inExpr := typeWriterCallContext(w, tw, st); inExpr {
+					// the type is spliced into the written expression itself: `" = (", goType(t), ")(", ...`
+					before, after = b4, aft
 					continue
 				}
 				if i > 0 {
